@@ -611,7 +611,7 @@ func (s *sess) shrink(k int, h []rng, offers []offer, clause string) ([]rng, []o
 						// keep offers that carried the old value in step
 						o2 = append([]offer(nil), offers...)
 						for oi := range o2 {
-							if o2[oi].ext || o2[oi].typ == "" {
+							if o2[oi].typ == "" && o2[oi].extName == "" {
 								continue
 							}
 							ps := append([]prm(nil), o2[oi].params...)
@@ -647,20 +647,25 @@ func (s *sess) shrink(k int, h []rng, offers []offer, clause string) ([]rng, []o
 		}
 		// empty list elements are covered by "ranges"; offers: spelling
 		for oi := range offers {
-			o := offers[oi]
-			if o.ext {
-				if m := mimeOfExt(o.text); m != "" {
+			if o := offers[oi]; o.ext {
+				name := o.extName
+				if name == "" {
+					name = o.text
+				}
+				if m := mimeOfExt(name); m != "" {
 					o2 := append([]offer(nil), offers...)
 					t := strings.SplitN(m, "/", 2)
-					o2[oi] = offer{typ: t[0], sub: t[1]}
-					renderOffer(&o2[oi], nil)
+					n := o
+					n.ext, n.extName, n.typ, n.sub = false, "", t[0], t[1]
+					n.params = append([]prm(nil), o.params...)
+					renderOffer(&n, nil)
+					o2[oi] = n
 					if try(h, o2) {
 						offers, progress = o2, true
 					}
 				}
-				continue
 			}
-			if o.typ == "" {
+			if offers[oi].typ == "" && offers[oi].extName == "" {
 				continue
 			}
 			for pj := len(offers[oi].params) - 1; pj >= 0; pj-- {
